@@ -58,7 +58,10 @@ static void val_rat(lp_value_t* v, long num, unsigned long den) {
   lp_rational_destruct(&q);
 }
 static void val_random(lp_value_t* v) {
-  static const long blk[][5] = { {2, -2, 0, 1}, {2, -3, 0, 1}, {2, -1, -1, 1}, {2, -5, 0, 1}, {2, -2, -2, 1}, {3, -2, 0, 0, 1}, {2, -1, 0, 2}, {2, -6, 0, 1} };
+  static const long blk[][5] = { {2, -2, 0, 1}, {2, -3, 0, 1}, {2, -1, -1, 1}, {2, -5, 0, 1}, {2, -2, -2, 1}, {3, -2, 0, 0, 1}, {2, -1, 0, 2}, {2, -6, 0, 1},
+    /* reducible, with a dyadic root that refinement reaches after a few steps (the value collapses to a point mid-query):
+       (x^2-2)(8x-3), (x^2-3)(16x+5) */
+    {3, 6, -16, -3, 8}, {3, -15, -48, 5, 16} };
   if (chance(55)) { const long* b = blk[rnd(sizeof blk / sizeof blk[0])]; val_root(v, b[0], b + 1, rnd(3)); }
   else val_rat(v, rnd_in(-6, 6), chance(50) ? 1 : 1 + rnd(5));
 }
